@@ -4,10 +4,13 @@
    Setting.  W x H is the terminal size, fs = full_screen.  [tbs cfg] are the
    style tables of configuration cfg (style sheet x style transformation x
    colour depth): style -> attrs -> (pen = SGR string, has_style); they are
-   ARBITRARY functions here, subject to two hypotheses:
+   ARBITRARY functions here, subject to one hypothesis:
      Hpv  attrs that _StyleStringHasStyleCache calls "no style" produce a pen
-          whose part visible on a blank ([pvis]) equals that of ESC[0m;
-     Htr  the Screen default style "[transparent]" (style 1) has no style.
+          whose part visible on a blank ([pvis]) equals that of ESC[0m.
+   (Until fix 076cd06 a second hypothesis was needed - the Screen default style
+   "[transparent]" has no visible attribute - and the statement was refuted
+   without it, finding C06-F1; the diff now draws such cells as blanks in the
+   default attributes and the hypothesis is gone.)
    [wf_screen W H s]: all cells have display width 1 and non-empty text, rows
    live below Screen.height <= H, the cursor is inside 0..W-1.  [Sync r t]:
    terminal t shows exactly Renderer r's _last_screen (modulo attributes
@@ -29,7 +32,7 @@
    bound on the cursor row during a render is not proved (oracle only). *)
 From Coq Require Import ZArith List Bool.
 From PTK Require Import Lib.Sx Lib.Py Model.C06_Terminal Model.C06_Renderer Model.C06_Run
-  Proofs.C06_TermFacts Proofs.C06_DiffFacts Proofs.C06_SyncFacts Proofs.C06_Refuted.
+  Proofs.C06_TermFacts Proofs.C06_DiffFacts Proofs.C06_SyncFacts.
 Import ListNotations.
 Open Scope Z_scope.
 
@@ -38,19 +41,18 @@ Variables (W H : Z) (fs : bool) (tbs : Z -> tabs) (pvis : Z -> Z).
 Hypothesis HW : 1 <= W.
 Hypothesis HH : 0 <= H.
 Hypothesis Hpv : forall c a, ahs (tbs c) a = false -> pvis (apen (tbs c) a) = pvis 0.
-Hypothesis Htr : forall c, ahs (tbs c) (sattr (tbs c) 1) = false.
 
 (* One operation keeps renderer and terminal in sync. *)
 Theorem C06_sync_step_partial : forall r t o r' ks,
   Sync W H fs tbs pvis r t -> okop W H o -> r_step tbs fs r o = (r', ks) ->
   Sync W H fs tbs pvis r' (t_step W t o ks).
-Proof. exact (step_sync W H fs tbs pvis HW HH Hpv Htr). Qed.
+Proof. exact (step_sync W H fs tbs pvis HW HH Hpv). Qed.
 
 (* ... hence every finite history does. *)
 Theorem C06_sync_history_partial : forall ops r t,
   Sync W H fs tbs pvis r t -> Forall (okop W H) ops ->
   Sync W H fs tbs pvis (fst (run_seq W fs tbs r t ops)) (snd (run_seq W fs tbs r t ops)).
-Proof. exact (seq_sync W H fs tbs pvis HW HH Hpv Htr). Qed.
+Proof. exact (seq_sync W H fs tbs pvis HW HH Hpv). Qed.
 
 (* Incremental == from scratch: after ANY history of renders/erases followed by
    a render of [scr], the terminal is visibly equal (cells modulo attributes
@@ -61,14 +63,14 @@ Theorem C06_equiv_partial : forall ops cfg scr r0 t0 r0' t0',
   Forall (okop W H) ops -> wf_screen W H scr ->
   visible_eq W pvis (snd (run_seq W fs tbs r0 t0 (ops ++ [ORender cfg false W H scr])))
                     (snd (run_seq W fs tbs r0' t0' [ORender cfg false W H scr])).
-Proof. exact (equiv_scratch W H fs tbs pvis HW HH Hpv Htr). Qed.
+Proof. exact (equiv_scratch W H fs tbs pvis HW HH Hpv). Qed.
 
 (* The terminal after a normal render is a function of the screen alone. *)
 Theorem C06_render_shows_partial : forall r t cfg scr r' ks,
   Sync W H fs tbs pvis r t -> wf_screen W H scr ->
   r_render tbs fs r cfg false W H scr = (r', ks) ->
   Final W fs tbs pvis cfg scr (trun W t ks).
-Proof. exact (render_notdone_final W H fs tbs pvis HW HH Hpv Htr). Qed.
+Proof. exact (render_notdone_final W H fs tbs pvis HW HH Hpv). Qed.
 
 (* Done epilogue: after the is_done render the cursor is at column 0 of the
    line below the output, attributes are reset, autowrap is on, the cursor is
@@ -77,7 +79,7 @@ Theorem C06_done_epilogue_partial : forall r t cfg scr r' ks,
   Sync W H fs tbs pvis r t -> wf_screen W H scr ->
   r_render tbs fs r cfg true W H scr = (r', ks) ->
   DoneState W H tbs pvis cfg scr (trun W t ks).
-Proof. exact (render_done_state W H fs tbs pvis HW HH Hpv Htr). Qed.
+Proof. exact (render_done_state W H fs tbs pvis HW HH Hpv). Qed.
 
 (* Rows owned: an incremental render leaves every cell in the rows at and below
    max(previous height, new height) exactly as it was. *)
@@ -85,7 +87,7 @@ Theorem C06_rows_owned_partial : forall r t cfg scr p r' ks,
   Sync W H fs tbs pvis r t -> wf_screen W H scr -> rlast r = Some p -> rcfg r = Some cfg ->
   r_render tbs fs r cfg false W H scr = (r', ks) ->
   forall y x, Z.max (sh scr) (sh p) <= y -> tgrid (trun W t ks) y x = tgrid t y x.
-Proof. exact (render_frame W H fs tbs pvis HW HH Hpv Htr). Qed.
+Proof. exact (render_frame W H fs tbs pvis HW HH Hpv). Qed.
 
 (* erase(): cursor back at the origin, everything from the origin down blank,
    attributes reset, autowrap on, cursor shown, renderer back in sync. *)
@@ -112,20 +114,6 @@ Print Assumptions C06_done_epilogue_partial.
 Print Assumptions C06_rows_owned_partial.
 Print Assumptions C06_erase_partial.
 Print Assumptions C06_sync_initial.
-
-(* Without Htr the statement is false (finding C06-F1): tables in which the
-   default style has a visible attribute, one render of 'x', then a render of
-   an empty row: the diff paints the vacated cell with the default style's pen,
-   a full redraw leaves it in ESC[0m. *)
-Theorem C06_equiv_default_style_visible_refuted :
-  exists (tbs : Z -> tabs) (pvis : Z -> Z) ops cfg scr,
-    (forall c a, ahs (tbs c) a = false -> pvis (apen (tbs c) a) = pvis 0) /\
-    Forall (okop 1 1) ops /\ wf_screen 1 1 scr /\
-    ~ visible_eq 1 pvis
-        (snd (run_seq 1 false tbs (fst r_new) (trun 1 term0 (snd r_new)) (ops ++ [ORender cfg false 1 1 scr])))
-        (snd (run_seq 1 false tbs (fst r_new) (trun 1 term0 (snd r_new)) [ORender cfg false 1 1 scr])).
-Proof. exact default_style_visible_refuted. Qed.
-Print Assumptions C06_equiv_default_style_visible_refuted.
 
 (* Non-vacuity of the hypotheses: a screen with text, a styled blank and an
    unstyled trailing blank is well formed. *)
